@@ -34,13 +34,18 @@ RULES = ['/a', '/a/b', '/a/b/c', '/a/<x>', '/a/<x>/c', '/ab', '/abc', '/a/<v:int
          # nor a literal node whose single remaining child is the wildcard node
          '/i/<id:int>/edit', '/i/<id:int>.json', '/m/<x>', '/m/lit', '/m/<x>/k',
          # rules that literally end in '*' and are spelled exactly like a prefix removal, with routes under the prefix
-         '/a/*', '/a/b*', '/p/<y:path>*']
+         '/a/*', '/a/b*', '/p/<y:path>*',
+         # rex filters with a [n] selector (pattern '\\r1' ...): registration, removal, lookup by rule/name and listings
+         # only — no probe path leads to their node (the selector's path rewriting is outside the model)
+         '/r/<x.rex((a)|(b))[1]>', '/r/<x.rex((a)|(b))[2]>/z',
+         # non-ASCII literal text (sent as UTF-8 bytes in latin-1 clothing through WSGI)
+         '/café/<x>', '/café']
 MERGE_FAMILY = ['/i/<id:int>/edit', '/i/<id:int>.json', '/m/<x>', '/m/lit', '/m/<x>/k', '/a/<x>/c', '/a/<x>', '/a/b']
 ALT = {'/a/<x>': '/a/<x2>', '/a/<x>/c': '/a/:k/c', '/<z>': '/{zz}'}        # same pattern, other names
-HOOKS = ['/a', '/a/b', '/a/<x>', '/p', '/a/b/c/d', '/ab', '/']
+HOOKS = ['/a', '/a/b', '/a/<x>', '/p', '/a/b/c/d', '/ab', '/', '/café', '/r/<x.rex((a)|(b))[1]>']
 PREFIXES = ['/a/*', '/a*', '/a/b*', '/*', '/p/*', '/ab*', '/a/b/*', '/zz*', '/a/*', '/p/*']
 NAMES = ['n1', 'n2', 'n3']
-PATHS = ['/a/*', '/a/b*', '/a', '/a/b', '/a/b/c', '/a/q', '/a/q/c', '/a/12', '/ab', '/abc', '/abd', '/p/q', '/p/x/y/e', '/p', '/zz', '/',
+PATHS = ['/a/é/c', '/a/é', '/a/é/zz', '/café/ü', '/café', '/cafe/x', '/a/*', '/a/b*', '/a', '/a/b', '/a/b/c', '/a/q', '/a/q/c', '/a/12', '/ab', '/abc', '/abd', '/p/q', '/p/x/y/e', '/p', '/zz', '/',
          '/a/b/c/d', '/a/b/zz', '/a//c', '/a/b/', '/a/\r/c', '/p/*',
          '/i/5/edit', '/i/5.json', '/i/x/edit', '/i/5', '/m/lit', '/m/zz', '/m/zz/k']
 
@@ -140,6 +145,16 @@ def corpus():
                             dict(op='remove', rule='/a/*'), A('/a/b', 6), A('/a/b*', 7), A('/a/b/c', 8, name='n3'),
                             dict(op='remove', rule='/a/b*'), A('/p/q', 9), A('/p/*', 10), dict(op='remove', rule='/p/*')],
                            full=True))
+    # rex rules with a selector can be removed / found by their rule text and by name; their hooks too
+    cs.append(_with_probes([A('/r/<x.rex((a)|(b))[1]>', 1, name='n1'), A('/r/<x.rex((a)|(b))[2]>/z', 2),
+                            dict(op='add_hook', rule='/r/<x.rex((a)|(b))[1]>', h=50), A('/a/b', 3),
+                            dict(op='remove', rule='/r/<x.rex((a)|(b))[1]>'),
+                            dict(op='remove_hook', rule='/r/<x.rex((a)|(b))[1]>'),
+                            dict(op='remove_obj', rule='/r/<x.rex((a)|(b))[2]>/z')], full=True))
+    # hooks on paths with non-ASCII text before the hook position: the hook receives the decoded prefix
+    cs.append(_with_probes([dict(op='add_hook', rule='/a/<x>', h=50), dict(op='add_hook', rule='/café', h=51),
+                            dict(op='add_hook', rule='/a/<x>', h=52, partial=True), A('/a/<x>/c', 1), A('/café/<x>', 2),
+                            A('/a/<x>', 3)], full=True))
     # wildcard siblings, filter conflict, shared pattern with other names, method removal
     cs.append(_with_probes([A('/a/<x>', 1), A('/a/<v:int>', 2), A('/a/<x2>', 3, ('POST',)), A('/a/b', 4),
                             dict(op='remove_method', rule='/a/<x>', methods=['GET']), dict(op='remove', rule='/a/<x2>'),
@@ -396,7 +411,9 @@ def _oracle(case, obs):
             # the documented meaning of remove(rule): a rule text ending in '*' removes EVERY route whose pattern starts
             # with the text before the '*' (also when that very text is itself a registered rule); any other rule text
             # removes exactly the route of that pattern; all other routes, and the names of surviving routes, stay
-            pat = ''.join(map(chr, L.cps(router.to_pattern(c['rule']))))
+            pat = ctx.parse(c['rule'])[0]                    # Route.parse_rule: what the registration used
+            if router.to_pattern(c['rule']) != pat:
+                return 'to_pattern(%r) = %r but the rule is registered under %r' % (c['rule'], router.to_pattern(c['rule']), pat)
             star = pat.endswith('*')
             gone = (lambda q: q.startswith(pat[:-1])) if star else (lambda q: q == pat)
             s_ = lambda xs: ''.join(map(chr, xs))
